@@ -194,7 +194,99 @@ def sc_entries(V, driver="mc", nobs=2, nmax=3):
     V.reach("done")
 
 
-SCENARIOS = {"split": sc_split, "entries": sc_entries}
+def sc_files(V, entry="run", amax=2):
+    """A real Canonical simulation (real generator, real calculator, trajectory and restart observers):
+    the files written by run(a); run(b) equal those of run(a+b), for every split incl. zero-length
+    calls.  Everything but (a, b) is concrete here; the splits are enumerated by solver-driven forks."""
+    import io
+
+    from ase import Atoms
+    from ase.calculators.lj import LennardJones
+
+    from quansino.io.restart import RestartObserver
+    from quansino.io.trajectory import TrajectoryObserver
+    from quansino.mc.canonical import Canonical
+    from quansino.moves.displacement import DisplacementMove
+    from quansino.operations.displacement import Ball
+
+    a = int(V.int("a", 0, amax))
+    b = int(V.int("b", 0, amax))
+    if V.mode == "sym":
+        # nothing symbolic beyond the split: run the concrete experiment on the unpatched modules
+        import json
+        import os
+        import subprocess
+        import tempfile
+
+        from ..runner import PY, ROOT
+
+        V.reach("zero-length-segment" if (a == 0 or b == 0) else "both-segments-nonempty")
+        for lab in ("split-run==single-run:trajectory", "split-run==single-run:trajectory-file", "split-run==single-run:restart-file"):
+            with tempfile.NamedTemporaryFile("w", suffix=".json", delete=False) as fh:
+                json.dump({"property": "C15", "scenario": "files", "params": {"entry": entry, "amax": amax}, "label": lab, "witness": {"symbols": {"a": a, "b": b}, "draws": []}}, fh)
+            try:
+                p = subprocess.run([PY, "-m", "qverif.main", "C15", "--replay", fh.name, "--quiet"], cwd=ROOT, capture_output=True, text=True, timeout=200)
+            finally:
+                os.unlink(fh.name)
+            if p.returncode == 1:
+                V.fail(lab, info=f"files:{entry}:a={a}:b={b}")
+            else:
+                V.prove(p.returncode == 0, lab, info=f"files:{entry}:a={a}:b={b}:replay-exit={p.returncode}")
+        return
+
+    def sim():
+        atoms = Atoms("Ar3", positions=[[0.9, 1.1, 1.3], [2.1, 1.5, 1.6], [3.2, 1.1, 2.6]], cell=[7.0, 7.0, 7.0], pbc=True)
+        atoms.calc = LennardJones(sigma=1.0, epsilon=0.02, rc=3.0)
+        mc = Canonical(atoms, temperature=25.0, max_cycles=2, seed=9, default_displacement_move=DisplacementMove(np.arange(3), Ball(0.9)))  # cold: rejections come first
+        tr, rs = RecText(), RecText()
+        mc.file_manager.attach_observer("traj", TrajectoryObserver(atoms, tr, interval=1, mode="w"))
+        mc.file_manager.attach_observer("rest", RestartObserver(mc, rs, interval=1, mode="w"))
+        return mc, atoms, tr, rs
+
+    m1, a1, t1, r1 = sim()
+    _drive(m1, entry, a)
+    _drive(m1, entry, b)
+    m2, a2, t2, r2 = sim()
+    _drive(m2, entry, a + b)
+    info = f"files:{entry}:a={a}:b={b}"
+    V.reach("zero-length-segment" if (a == 0 or b == 0) else "both-segments-nonempty")
+    V.prove(m1.step_count == m2.step_count and np.array_equal(a1.positions, a2.positions), "split-run==single-run:trajectory", info=info)
+    V.prove(t1.text() == t2.text(), "split-run==single-run:trajectory-file", info=info)
+    V.prove(r1.text() == r2.text(), "split-run==single-run:restart-file", info=info)
+
+
+class RecText:
+    """Seekable in-memory text file."""
+
+    def __init__(self):
+        import io
+
+        self.f = io.StringIO()
+        self.closed = False
+
+    def write(self, s):
+        return self.f.write(s)
+
+    def flush(self):
+        pass
+
+    def seek(self, *a):
+        return self.f.seek(*a)
+
+    def truncate(self, *a):
+        return self.f.truncate(*a)
+
+    def seekable(self):
+        return True
+
+    def close(self):
+        pass
+
+    def text(self):
+        return self.f.getvalue()
+
+
+SCENARIOS = {"split": sc_split, "entries": sc_entries, "files": sc_files}
 replay = generic_replay(SCENARIOS)
 
 
@@ -207,6 +299,7 @@ def _plan(tier):
         ("split", dict(driver="fb", entry="run", nobs=1, amax=2), R),
         ("entries", dict(driver="mc", nobs=2, nmax=3), ("done",)),
         ("entries", dict(driver="fb", nobs=1, nmax=3), ("done",)),
+        ("files", dict(entry="run", amax=2), R),
     ]
     if not q:
         P.append(("split", dict(driver="mc", entry="irun", nobs=2, amax=3), R))
